@@ -22,7 +22,7 @@ REPO = os.environ.get("VERIF_REPO", "/repo")
 GAPIC = os.path.join(REPO, "gapic")
 TEMPLATES = os.path.join(GAPIC, "templates")
 ADS_TEMPLATES = os.path.join(GAPIC, "ads-templates")
-EVIDENCE_DIR = os.path.join(VERIF, "evidence")
+EVIDENCE_DIR = os.environ.get("VERIF_EVIDENCE_DIR") or os.path.join(VERIF, "evidence")
 KNOWN_FINDINGS = os.path.join(VERIF, "known_findings.json")
 
 
